@@ -973,7 +973,14 @@ func (x *c10ctx) checkCallPreconditions(f *ssa.Function, ci ssa.CallInstruction)
 		}
 		c.Decide(ok, "stdlib", fn, "strings.Repeat-count", "the repeat count is never negative", "strings.Repeat can be called with a negative count ("+it.String()+"): panic", w.InstrPos(ci))
 	case "(encoding/binary.bigEndian).PutUint64", "(encoding/binary.littleEndian).PutUint64":
-		c.Decide(wholeArray8(cc.Args[len(cc.Args)-2]), "stdlib", fn, "PutUint64-buffer", "the buffer is a whole 8-byte array", "PutUint64 is given a buffer not known to hold 8 bytes: panic", w.InstrPos(ci))
+		bufArg := cc.Args[len(cc.Args)-2]
+		okBuf := wholeArray8(bufArg)
+		if !okBuf {
+			if l := x.LenAt(bufArg, b); l.Lo != nil && l.Lo.Cmp(bi(8)) >= 0 {
+				okBuf = true
+			}
+		}
+		c.Decide(okBuf, "stdlib", fn, "PutUint64-buffer", "the buffer holds at least 8 bytes", "PutUint64 is given a buffer not known to hold 8 bytes: panic", w.InstrPos(ci))
 	case "(*math/big.Int).SetString":
 		c.Decide(constArg(2, 0, 2, 8, 10, 16), "stdlib", fn, "SetString-base", "constant legal base", "SetString base is not a constant legal base", w.InstrPos(ci))
 	case "(*math/big.Int).Text":
